@@ -778,8 +778,8 @@ class Installer:
                 if should_strip and d.strip_bin is not None:
                     if fname.endswith('.jar'):
                         self.log('Not stripping jar target: {}'.format(os.path.basename(fname)))
-                        continue
-                    self.do_strip(d.strip_bin, fname, outname, t.system)
+                    else:
+                        self.do_strip(d.strip_bin, fname, outname, t.system)
                 if fname.endswith('.js'):
                     # Emscripten outputs js files and optionally a wasm file.
                     # If one was generated, install it as well.
